@@ -139,3 +139,187 @@ Print Assumptions c02_rx_eof_flush_regression.
 Print Assumptions c02_probe_expiry_rto_regression.
 Print Assumptions c02_zero_window_without_waker_refuted.
 Print Assumptions c02_fin_after_rto_rewind_regression.
+
+(* ================================================================================================
+   Step-level and trace-level theorems (Conn/C02_Step.v): the predicates of Conn/C02_Pred.v hold of
+   EVERY step of the model from a state satisfying a proved invariant, and of every trace from
+   vsock_new.  Invariants: pk (VSock_LemmasPark), ti (VSock_LemmasTimers), pq (C02_Step), rxi
+   (VSock_LemmasEof), mss_pos (C07_Proofs), rxconst (VSock_LemmasZw); each is proved to hold of
+   vsock_new and to be kept by every event. *)
+From Utp Require Import Mtu.SegSizes_Proofs Tx.Segments_ProofsOut Conn.C07_Pred Conn.C07_Proofs
+  Conn.VSock_Lemmas Conn.VSock_LemmasStep Conn.VSock_LemmasReach Conn.VSock_LemmasPark
+  Conn.VSock_LemmasTimers Conn.VSock_LemmasPipe Conn.VSock_LemmasEof Conn.VSock_LemmasZw Conn.C02_Step.
+
+(* ---- c02_parked_ok: after EVERY event ---- *)
+Theorem c02_parked_ok_every_step : forall (CC : Type) (cci : cc_iface CC) (cfg : vconfig) (s : vsock CC) (o : vop),
+  pk s -> pk (vstep_state cci s o) /\ c02_parked_ok cfg (VSock_Lemmas.fstep_of cci s o) = true.
+Proof. exact @c02_parked_ok_step. Qed.
+
+Theorem c02_parked_ok_every_trace : forall (CC : Type) (cci : cc_iface CC) (cfg : vconfig)
+    (mk : Z -> Z -> CC) (c : vconfig) (s0 : vsock CC) (ops : list vop),
+  vsock_new cci mk c = Some s0 -> forallb (c02_parked_ok cfg) (ftrace cci s0 ops) = true.
+Proof. exact @c02_parked_ok_trace. Qed.
+
+(* ---- c02_timer_ok: FALSE as stated (stale recovery-pipe timer); true under the guard ---- *)
+Theorem c02_timer_ok_stale_pipe_refuted :
+  exists w cfg ops,
+    vconfig_ok cfg = true /\ Forall op_msg_ok ops /\
+    forallb (c02_timer_ok cfg) (wtrace w cfg ops) = false /\
+    forallb (c02_timer_ok_g cfg) (wtrace w cfg ops) = true /\
+    forallb (c02_timer_ok_p cfg) (wtrace w cfg ops) = true /\
+    existsb (fun st => pipe_idle (fs_pre st) &&
+                       match fs_result st with FrPoll PollPending _ _ _ => true | _ => false end)
+            (wtrace w cfg ops) = true.
+Proof. exact timer_ok_stale_pipe_refuted. Qed.
+
+Theorem c02_timer_ok_guarded_step : forall (CC : Type) (cci : cc_iface CC) (cfg : vconfig) (s : vsock CC) (o : vop),
+  ti s -> pipe_idle (fp_of_vsock cci s) = true ->
+  c02_timer_ok cfg (VSock_Lemmas.fstep_of cci s o) = true.
+Proof. exact @c02_timer_ok_step. Qed.
+
+Theorem c02_timer_ok_g_every_trace : forall (CC : Type) (cci : cc_iface CC) (cfg : vconfig)
+    (mk : Z -> Z -> CC) (c : vconfig) (s0 : vsock CC) (ops : list vop),
+  vsock_new cci mk c = Some s0 -> forallb (c02_timer_ok_g cfg) (ftrace cci s0 ops) = true.
+Proof. exact @c02_timer_ok_g_trace. Qed.
+
+Theorem c02_timer_ok_p_every_trace : forall (CC : Type) (cci : cc_iface CC) (cfg : vconfig)
+    (mk : Z -> Z -> CC) (c : vconfig) (s0 : vsock CC) (ops : list vop),
+  vsock_new cci mk c = Some s0 -> forallb (c02_timer_ok_p cfg) (ftrace cci s0 ops) = true.
+Proof. exact @c02_timer_ok_p_trace. Qed.
+
+(* the state the timer tail of such a poll sees: pipe timer idle or phase Recovering *)
+Theorem c02_poll_pipe_tail : forall (CC : Type) (cci : cc_iface CC) (s s' : vsock CC),
+  ti s -> PN s -> poll cci s = (s', PollPending) -> v_transport_pending s' = false ->
+  exists sb, ti sb /\ v_arm_in sb = None /\ v_now sb = v_env_now sb /\
+             (PN sb \/ REC sb) /\ v_transport_pending sb = false /\ s' = poll_tail sb.
+Proof. exact @poll_pipe_tail. Qed.
+
+(* ---- c02_rto_armed: the data half for every step; the whole predicate when our FIN is not the
+   outstanding thing (the FIN half is NOT proved at step level) ---- *)
+Theorem c02_ti_invariant : forall (CC : Type) (cci : cc_iface CC) (s : vsock CC) (o : vop),
+  ti s -> ti (vstep_state cci s o).
+Proof. exact @ti_vstep. Qed.
+
+Theorem c02_ti_initial : forall (CC : Type) (cci : cc_iface CC) (mk : Z -> Z -> CC) (c : vconfig) (s : vsock CC),
+  vsock_new cci mk c = Some s -> ti s.
+Proof. exact @ti_vsock_new. Qed.
+
+Theorem c02_rto_armed_data_every_step : forall (CC : Type) (cci : cc_iface CC) (cfg : vconfig) (s : vsock CC) (o : vop),
+  ti s -> ti (vstep_state cci s o) /\ c02_rto_armed_data cfg (VSock_Lemmas.fstep_of cci s o) = true.
+Proof. exact @c02_rto_armed_data_step. Qed.
+
+Theorem c02_rto_armed_data_every_trace : forall (CC : Type) (cci : cc_iface CC) (cfg : vconfig)
+    (mk : Z -> Z -> CC) (c : vconfig) (s0 : vsock CC) (ops : list vop),
+  vsock_new cci mk c = Some s0 -> forallb (c02_rto_armed_data cfg) (ftrace cci s0 ops) = true.
+Proof. exact @c02_rto_armed_data_trace. Qed.
+
+Theorem c02_rto_armed_nofin_step : forall (CC : Type) (cci : cc_iface CC) (cfg : vconfig) (s : vsock CC) (o : vop),
+  ti s -> fin_outstanding (fs_post (VSock_Lemmas.fstep_of cci s o)) = false ->
+  c02_rto_armed cfg (VSock_Lemmas.fstep_of cci s o) = true.
+Proof. exact @c02_rto_armed_step_nofin. Qed.
+
+(* ---- application events ---- *)
+Theorem c02_write_wakes_every_step : forall (CC : Type) (cci : cc_iface CC) (cfg : vconfig) (s : vsock CC) (o : vop),
+  c02_write_wakes cfg (VSock_Lemmas.fstep_of cci s o) = true.
+Proof. exact @c02_write_wakes_step. Qed.
+
+Theorem c02_write_wakes_every_trace : forall (CC : Type) (cci : cc_iface CC) (cfg : vconfig)
+    (ops : list vop) (s : vsock CC),
+  forallb (c02_write_wakes cfg) (ftrace cci s ops) = true.
+Proof. exact @c02_write_wakes_trace. Qed.
+
+Theorem c02_drop_writer_wakes_every_step : forall (CC : Type) (cci : cc_iface CC) (cfg : vconfig) (s : vsock CC) (o : vop),
+  c02_drop_writer_wakes cfg (VSock_Lemmas.fstep_of cci s o) = true.
+Proof. exact @c02_drop_writer_wakes_step. Qed.
+
+Theorem c02_drop_writer_wakes_every_trace : forall (CC : Type) (cci : cc_iface CC) (cfg : vconfig)
+    (ops : list vop) (s : vsock CC),
+  forallb (c02_drop_writer_wakes cfg) (ftrace cci s ops) = true.
+Proof. exact @c02_drop_writer_wakes_trace. Qed.
+
+Theorem c02_shutdown_wakes_every_step : forall (CC : Type) (cci : cc_iface CC) (cfg : vconfig) (s : vsock CC) (o : vop),
+  c02_shutdown_wakes cfg (VSock_Lemmas.fstep_of cci s o) = true.
+Proof. exact @c02_shutdown_wakes_step. Qed.
+
+Theorem c02_shutdown_wakes_every_trace : forall (CC : Type) (cci : cc_iface CC) (cfg : vconfig)
+    (ops : list vop) (s : vsock CC),
+  forallb (c02_shutdown_wakes cfg) (ftrace cci s ops) = true.
+Proof. exact @c02_shutdown_wakes_trace. Qed.
+
+Theorem c02_read_wakes_every_step : forall (CC : Type) (cci : cc_iface CC) (cfg : vconfig) (s : vsock CC) (o : vop),
+  c02_read_wakes cfg (VSock_Lemmas.fstep_of cci s o) = true.
+Proof. exact @c02_read_wakes_step. Qed.
+
+Theorem c02_read_wakes_every_trace : forall (CC : Type) (cci : cc_iface CC) (cfg : vconfig)
+    (ops : list vop) (s : vsock CC),
+  forallb (c02_read_wakes cfg) (ftrace cci s ops) = true.
+Proof. exact @c02_read_wakes_trace. Qed.
+
+(* ---- c02_eof_wakes (D8 class) ---- *)
+Theorem c02_eof_wakes_every_step : forall (CC : Type) (cci : cc_iface CC) (cfg : vconfig) (s : vsock CC) (o : vop),
+  pk s -> rxi s -> c02_eof_wakes cfg (VSock_Lemmas.fstep_of cci s o) = true.
+Proof. exact @c02_eof_wakes_step. Qed.
+
+Theorem c02_eof_wakes_every_trace : forall (CC : Type) (cci : cc_iface CC) (cfg : vconfig)
+    (mk : Z -> Z -> CC) (c : vconfig) (s0 : vsock CC) (ops : list vop),
+  0 < vc_rx_buf c -> vsock_new cci mk c = Some s0 ->
+  forallb (c02_eof_wakes cfg) (ftrace cci s0 ops) = true.
+Proof. exact @c02_eof_wakes_trace. Qed.
+
+(* ---- c02_zero_window_waker outside the D9 class ---- *)
+Theorem c02_zero_window_waker_or_d9_every_step : forall (CC : Type) (cci : cc_iface CC) (c : vconfig) (s : vsock CC) (o : vop),
+  rxi s -> mss_pos s -> rxconst (vc_rx_buf c) (floor_of (ss_config_of c)) s -> vc_rx_buf c < M32 ->
+  c02_zero_window_waker_or_d9 c (VSock_Lemmas.fstep_of cci s o) = true.
+Proof. exact @c02_zero_window_waker_step. Qed.
+
+Theorem c02_zero_window_waker_or_d9_every_trace : forall (CC : Type) (cci : cc_iface CC)
+    (mk : Z -> Z -> CC) (c : vconfig) (s0 : vsock CC) (ops : list vop),
+  0 < vc_rx_buf c < M32 -> vsock_new cci mk c = Some s0 ->
+  forallb (c02_zero_window_waker_or_d9 c) (ftrace cci s0 ops) = true.
+Proof. exact @c02_zero_window_waker_trace. Qed.
+
+Print Assumptions c02_parked_ok_every_step.
+Print Assumptions c02_parked_ok_every_trace.
+Print Assumptions c02_timer_ok_stale_pipe_refuted.
+Print Assumptions c02_timer_ok_guarded_step.
+Print Assumptions c02_timer_ok_g_every_trace.
+Print Assumptions c02_timer_ok_p_every_trace.
+Print Assumptions c02_poll_pipe_tail.
+Print Assumptions c02_ti_invariant.
+Print Assumptions c02_ti_initial.
+Print Assumptions c02_rto_armed_data_every_step.
+Print Assumptions c02_rto_armed_data_every_trace.
+Print Assumptions c02_rto_armed_nofin_step.
+Print Assumptions c02_write_wakes_every_step.
+Print Assumptions c02_write_wakes_every_trace.
+Print Assumptions c02_drop_writer_wakes_every_step.
+Print Assumptions c02_drop_writer_wakes_every_trace.
+Print Assumptions c02_shutdown_wakes_every_step.
+Print Assumptions c02_shutdown_wakes_every_trace.
+Print Assumptions c02_read_wakes_every_step.
+Print Assumptions c02_read_wakes_every_trace.
+Print Assumptions c02_eof_wakes_every_step.
+Print Assumptions c02_eof_wakes_every_trace.
+Print Assumptions c02_zero_window_waker_or_d9_every_step.
+Print Assumptions c02_zero_window_waker_or_d9_every_trace.
+
+(* the guards of the theorems above are met by reachable states *)
+Theorem c02_zero_window_guard_nonvacuous :
+  exists w cfg ops,
+    vconfig_ok cfg = true /\ Forall op_msg_ok ops /\
+    existsb (fun st => zero_window_guard st && negb (c02_d9_class cfg st)) (wtrace w cfg ops) = true /\
+    forallb (c02_zero_window_waker cfg) (wtrace w cfg ops) = true.
+Proof. exact zero_window_guard_nonvacuous. Qed.
+
+Theorem c02_rto_armed_nofin_nonvacuous :
+  exists w cfg ops,
+    vconfig_ok cfg = true /\ Forall op_msg_ok ops /\
+    existsb (fun st => data_outstanding (fs_post st) && negb (fin_outstanding (fs_post st)) &&
+                       negb (f_transport_pending (fs_post st)) &&
+                       match fs_result st with FrPoll PollPending _ _ _ => true | _ => false end)
+            (wtrace w cfg ops) = true /\
+    forallb (c02_rto_armed cfg) (wtrace w cfg ops) = true.
+Proof. exact rto_armed_nofin_nonvacuous. Qed.
+
+Print Assumptions c02_zero_window_guard_nonvacuous.
+Print Assumptions c02_rto_armed_nofin_nonvacuous.
